@@ -429,7 +429,7 @@ def path_lemmas(reg, tier):
     s_ = z3.String('s')
     a, b = z3.Ints('a b')
     d = lambda x: z3.Concat(s_, z3.StringVal('.bundle'), z3.IntToStr(x))
-    return [solve.discharge(VC(f'{PROPERTY}:lemma:bundle-path-injective', [a >= 0, b >= 0, d(a) == d(b)], a == b, kind='lemma'), 20000)]
+    return [solve.discharge_fresh(VC(f'{PROPERTY}:lemma:bundle-path-injective', [a >= 0, b >= 0, d(a) == d(b)], a == b, kind='lemma'), 30000)]
 
 
 EXTRA_OBLIGATIONS = [path_lemmas]
